@@ -91,27 +91,13 @@ pub fn in_source_order(set: &HashSet<Rc<CfgNode>>) -> Vec<Rc<CfgNode>> {
 
 trait BaseCfgGen {
     fn call_names(&self) -> HashSet<LabelStringToken>;
-    fn jump_names(&self) -> HashSet<LabelStringToken>;
     fn label_names(&self) -> HashSet<LabelStringToken>;
-    fn load_names(&self) -> HashSet<LabelStringToken>;
 }
 
 impl BaseCfgGen for Vec<ParserNode> {
     fn call_names(&self) -> HashSet<LabelStringToken> {
         self.iter()
             .filter_map(parser::ParserNode::calls_to)
-            .collect()
-    }
-
-    fn jump_names(&self) -> HashSet<LabelStringToken> {
-        self.iter()
-            .filter_map(parser::ParserNode::jumps_to)
-            .collect()
-    }
-
-    fn load_names(&self) -> HashSet<LabelStringToken> {
-        self.iter()
-            .filter_map(parser::ParserNode::reads_address_of)
             .collect()
     }
 
@@ -146,18 +132,20 @@ impl Cfg {
             }
             set
         };
-        let jump_names = old_nodes.jump_names();
-        let load_names = old_nodes.load_names();
 
-        // Check if any call or jump names are not defined
-        let undefined_labels = call_names
-            .union(&jump_names)
-            .cloned()
-            .collect::<HashSet<_>>()
-            .union(&load_names)
-            .filter(|x| !label_names.contains(x))
-            .cloned()
-            .collect::<HashSet<LabelStringToken>>();
+        // Check if any call or jump names are not defined; the error lists
+        // them in the order of their first use
+        let mut undefined_labels: Vec<LabelStringToken> = Vec::new();
+        let used = old_nodes
+            .iter()
+            .flat_map(|node| [node.calls_to(), node.jumps_to(), node.reads_address_of()])
+            .flatten()
+            .chain(predefined_call_names.iter().flatten().cloned());
+        for name in used {
+            if !label_names.contains(&name) && !undefined_labels.contains(&name) {
+                undefined_labels.push(name);
+            }
+        }
 
         if !undefined_labels.is_empty() {
             return Err(Box::new(CfgError::LabelsNotDefined(undefined_labels)));
